@@ -829,46 +829,65 @@ Section Sim.
     destruct i as [ws cs|ws b tr|ws name post args|ws mk b tr|ws text post|ws mid|ws bws name args b tr ews
                    |ws chars args|ws oc cc b tr|]; cycle 4.
     - (* comment *)
-      cbn [ok_item2] in OKI. apply andb_true_iff in OKI. destruct OKI as [OKI FO].
-      apply andb_true_iff in OKI. destruct OKI as [OKI NLs].
-      apply andb_true_iff in OKI. destruct OKI as [OKI Wp].
-      apply andb_true_iff in OKI. destruct OKI as [W NT].
-      apply negb_true_iff in NT. apply negb_true_iff in FO.
-      assert (EW : exists w, post = 10%N :: w).
-      { destruct post as [|c w]; [discriminate|]. destruct c as [|q]; try discriminate.
-        repeat (destruct q as [q|q|]; try discriminate). exists w. reflexivity. }
-      assert (SK' : skipn pos s = ws ++ 37%N :: text ++ post ++ fol).
-      { cbn [unparse_item2] in SK. rewrite <- !app_assoc in SK. cbn [app] in SK. rewrite <- !app_assoc in SK. exact SK. }
-      pose proof (skipn_shift _ _ _ _ SK') as SK0.
-      assert (T : impl_peek cps s pos
-                  = TokOk (Tokenizer.mk TkComment text (pos + length ws)
-                              (pos + length ws + 1 + length text + length post) ws post)).
-      { rewrite (frame_peek1 cx ex cps ps s pos ws 37%N _ F SK' W space_37 (frame_ex_special cx ex cps ps 37%N F eq_refl)).
-        rewrite (impl_peek_dispatch ps s pos ws 37%N _ W SK' space_37).
-        apply (dispatch_comment cx ps V s _ ws text post fol SK0 NT Wp EW). apply otest_hd_not. exact FO. }
-      cbn [absorb_item2 item_ws2 node_of2] in H. rewrite ilen_cmt2 in H |- *.
-      apply (lift (S k)); [|exact NR|lia].
-      apply (rule_commentF s cx k cps ps o st pos ws text _ post r OK T).
-      replace (pos + (length ws + 1 + length text + length post))
-        with (pos + length ws + 1 + length text + length post) in H by lia. exact H.
+      cbn [ok_item2] in OKI. apply andb_true_iff in OKI. destruct OKI as [OKI PO].
+      apply andb_true_iff in OKI. destruct OKI as [W NT]. apply negb_true_iff in NT.
+      destruct post as [|c0 w0].
+      + (* ... that ends with the input *)
+        destruct fol; [|discriminate].
+        assert (SK' : skipn pos s = ws ++ 37%N :: text).
+        { cbn [unparse_item2] in SK. rewrite !app_nil_r in SK. exact SK. }
+        pose proof (skipn_shift _ _ _ _ SK') as SK0.
+        assert (T : impl_peek cps s pos
+                    = TokOk (Tokenizer.mk TkComment text (pos + length ws) (pos + length ws + 1 + length text) ws [])).
+        { rewrite (frame_peek1 cx ex cps ps s pos ws 37%N _ F SK' W space_37 (frame_ex_special cx ex cps ps 37%N F eq_refl)).
+          rewrite (impl_peek_dispatch ps s pos ws 37%N _ W SK' space_37).
+          apply (dispatch_comment_eof cx ps V s _ ws text SK0 NT). }
+        cbn [absorb_item2 item_ws2 node_of2] in H. rewrite ilen_cmt2 in H |- *. cbn [length] in H |- *.
+        rewrite !Nat.add_0_r in H.
+        apply (lift (S k)); [|exact NR|lia].
+        apply (rule_commentF s cx k cps ps o st pos ws text _ [] r OK T).
+        replace (pos + (length ws + 1 + length text)) with (pos + length ws + 1 + length text) in H by lia. exact H.
+      + (* ... that ends with a newline *)
+        assert (C10 : c0 = 10%N).
+        { destruct c0 as [|q]; try discriminate. repeat (destruct q as [q|q|]; try discriminate). reflexivity. }
+        subst c0. apply andb_true_iff in PO. destruct PO as [Wp FO]. apply negb_true_iff in FO.
+        set (post := 10%N :: w0) in *.
+        assert (EW : exists w, post = 10%N :: w) by (exists w0; reflexivity).
+        assert (SK' : skipn pos s = ws ++ 37%N :: text ++ post ++ fol).
+        { cbn [unparse_item2] in SK. rewrite <- !app_assoc in SK. cbn [app] in SK. rewrite <- !app_assoc in SK. exact SK. }
+        pose proof (skipn_shift _ _ _ _ SK') as SK0.
+        assert (T : impl_peek cps s pos
+                    = TokOk (Tokenizer.mk TkComment text (pos + length ws)
+                                (pos + length ws + 1 + length text + length post) ws post)).
+        { rewrite (frame_peek1 cx ex cps ps s pos ws 37%N _ F SK' W space_37 (frame_ex_special cx ex cps ps 37%N F eq_refl)).
+          rewrite (impl_peek_dispatch ps s pos ws 37%N _ W SK' space_37).
+          apply (dispatch_comment cx ps V s _ ws text post fol SK0 NT Wp EW). apply otest_hd_not. exact FO. }
+        cbn [absorb_item2 item_ws2 node_of2] in H. rewrite ilen_cmt2 in H |- *.
+        apply (lift (S k)); [|exact NR|lia].
+        apply (rule_commentF s cx k cps ps o st pos ws text _ post r OK T).
+        replace (pos + (length ws + 1 + length text + length post))
+          with (pos + length ws + 1 + length text + length post) in H by lia. exact H.
     - (* paragraph break *)
       cbn [ok_item2] in OKI. apply andb_true_iff in OKI. destruct OKI as [OKI PS].
-      apply andb_true_iff in OKI. destruct OKI as [OKI FO].
+      apply andb_true_iff in OKI. destruct OKI as [OKI NI].
       apply andb_true_iff in OKI. destruct OKI as [OKI WM].
       apply andb_true_iff in OKI. destruct OKI as [W NW].
-      apply negb_true_iff in NW. apply negb_true_iff in FO.
+      apply negb_true_iff in NW. apply negb_true_iff in NI.
+      destruct (span is_space fol) as [ind rest] eqn:SP. cbn [fst] in NI.
+      destruct (span_split _ _ _ _ SP) as (FE & WI & HF).
       cbn [absorb_item2 item_ws2 node_of2] in H. rewrite PS in H.
       unfold par_spec_ok in PS.
       destruct (get_specials_spec cx [10;10]%N) as [sp|] eqn:GS; [|discriminate].
       destruct (sp_args sp) as [[|? ?]|] eqn:SA; try discriminate.
-      assert (SK' : skipn pos s = ws ++ 10%N :: mid ++ 10%N :: fol).
-      { cbn [unparse_item2] in SK. rewrite <- !app_assoc in SK. cbn [app] in SK. rewrite <- !app_assoc in SK. exact SK. }
-      pose proof (impl_peek_par cx ps s pos ws mid fol sp V SK' W NW WM (otest_hd_not _ _ FO) GS) as T.
+      assert (SK' : skipn pos s = ws ++ 10%N :: mid ++ 10%N :: ind ++ rest).
+      { cbn [unparse_item2] in SK. rewrite FE in SK. rewrite <- !app_assoc in SK. cbn [app] in SK.
+        rewrite <- !app_assoc in SK. exact SK. }
+      pose proof (impl_peek_par_ind cx ps s pos ws mid ind rest sp V SK' W NW WM WI NI HF GS) as T.
       assert (TF : impl_peek cps s pos = impl_peek ps s pos).
-      { apply (frame_peek cx ex cps ps s pos (ws ++ 10%N :: mid ++ [10%N]) fol F).
-        - rewrite <- app_assoc. cbn [app]. rewrite <- app_assoc. exact SK'.
-        - rewrite forallb_app. cbn [forallb]. rewrite forallb_app. cbn [forallb]. rewrite W, WM, space_10. reflexivity.
-        - apply otest_hd_not. exact FO.
+      { apply (frame_peek cx ex cps ps s pos (ws ++ 10%N :: mid ++ 10%N :: ind) rest F).
+        - rewrite <- app_assoc. cbn [app]. rewrite <- app_assoc. cbn [app]. exact SK'.
+        - rewrite forallb_app. cbn [forallb]. rewrite forallb_app. cbn [forallb]. rewrite W, WM, WI, space_10. reflexivity.
+        - exact HF.
         - left. apply Nat.leb_le. rewrite count_c_app. cbn [count_c]. rewrite count_c_app. cbn [count_c].
           rewrite N.eqb_refl. lia. }
       rewrite <- TF in T.
